@@ -109,20 +109,45 @@ def prove(goal, extra=(), timeout_ms=20000, with_path=True, mono=False):
         STATS.trivial += 1
         STATS.queries["unsat"] += 1
         return "unsat", None, 0.0
-    cons = list(ST.assumptions) + (list(ST.pathcond) if with_path else []) + list(extra)
-    neg = z3.Not(goal)
+    cons = list(ST.assumptions) + [core.expand_defs(c) for c in ((list(ST.pathcond) if with_path else []) + list(extra))]
+    neg = core.expand_defs(z3.Not(goal))
     if mono:
         cons += e_axioms(cons + [neg], mono=True)
     return check_sat(cons + [neg], timeout_ms)
 
 
 def residue_zero(an, ad, bn, bd):
-    """polynomial residue an*bd - bn*ad in sum-of-monomials normal form"""
+    """polynomial residue an*bd - bn*ad, normalised by z3's rewriter in stages:
+       (1) purified atoms opaque, AC-flattening only; (2) opaque, sum-of-monomials; (3) definitions expanded, sum-of-monomials."""
     t0 = time.time()
     res = core.t_sub(core.t_mul(an, bd), core.t_mul(bn, ad))
-    out = z3.simplify(res, som=True)
+    out = z3.simplify(res)
+    if not (is_num(out) and numval(out) == 0):
+        out = z3.simplify(res, som=True, som_blowup=SOM_BLOWUP)
+    if not (is_num(out) and numval(out) == 0) and ST.defs:
+        # (3) all definitions unfolded at once (what identities between two independently built sums need)
+        full = z3.simplify(core.expand_defs(res), som=True, som_blowup=SOM_BLOWUP)
+        if is_num(full) and numval(full) == 0:
+            out = full
+        else:
+            # (4) level by level, outermost first, within a small time budget (helps when only the outer normalisers differ)
+            cur, t1 = out, time.time()
+            for _ in range(8):
+                names = core._defs_in(cur)
+                if not names or time.time() - t1 > 2.0:
+                    break
+                names.sort(key=lambda nm: -int(nm.split("!")[1]))
+                top = names[:max(1, len(names) // 3)]
+                cur = z3.substitute(cur, *[(z3.Real(nm), ST.defs[nm]) for nm in top])
+                cur = z3.simplify(cur, som=True, som_blowup=SOM_BLOWUP)
+                if is_num(cur):
+                    break
+            out = cur if (is_num(cur) and numval(cur) == 0) else full
     STATS.solver_s += time.time() - t0
     return out
+
+
+SOM_BLOWUP = 10
 
 
 def prove_eq(a, b, extra=(), timeout_ms=20000, tol=None):
@@ -193,6 +218,7 @@ class Explorer:
         self.worklist = []
         self.prefix = []
         self.taken = []
+        self.known = {}
         self.solver = None
         self.n_assumed = 0
 
@@ -205,7 +231,7 @@ class Explorer:
     def _feasible(self, cond):
         self._sync_solver()
         self.solver.push()
-        self.solver.add(cond)
+        self.solver.add(core.expand_defs(cond))
         if self.mono:
             for ax in e_axioms([cond] + ST.pathcond, mono=True, max_pairs=60):
                 self.solver.add(ax)
@@ -217,6 +243,15 @@ class Explorer:
         return str(r) != "unsat"     # unknown => explore (sound for 'holds' verdicts)
 
     def decide(self, cond):
+        # the same condition decided earlier on this path (e.g. the fresh-estimator twin of a history run): same outcome
+        key = cond.get_id()
+        if key in self.known:
+            return self.known[key]
+        out = self._decide(cond)
+        self.known[key] = out
+        return out
+
+    def _decide(self, cond):
         idx = len(self.taken)
         if idx >= self.max_decisions:
             raise BoundHit("decision depth %d" % idx)
@@ -239,7 +274,7 @@ class Explorer:
         c = cond if choice else z3.Not(cond)
         ST.pathcond.append(c)
         self._sync_solver()
-        self.solver.add(c)
+        self.solver.add(core.expand_defs(c))
         return choice
 
     def run(self, fn):
@@ -254,6 +289,7 @@ class Explorer:
                 break
             self.prefix = self.worklist.pop()
             self.taken = []
+            self.known = {}
             ST.reset()
             ST.explorer = self
             self.solver = z3.Solver()
@@ -293,6 +329,8 @@ def evalf(t, env, _cache=None):
             v = env[nm]
         elif nm in ST.evar_of:
             v = math.exp(evalf(ST.evar_of[nm], env, _cache))
+        elif nm in ST.defs:
+            v = evalf(ST.defs[nm], env, _cache)
         elif nm in ST.roots:
             p, q, base = ST.roots[nm]
             v = evalf(base, env, _cache) ** (p / q)
@@ -368,7 +406,7 @@ def model_env(model, names=None):
     env = {}
     for d in model.decls():
         nm = d.name()
-        if nm.startswith("E!") or nm.startswith("sqrt!") or nm.startswith("root!"):
+        if nm.startswith("E!") or nm.startswith("sqrt!") or nm.startswith("root!") or nm.startswith("S!"):
             continue
         v = model[d]
         if is_num(v):
